@@ -381,11 +381,20 @@ def handleEmu (toks : List String) : String :=
       else (if done then "done " else "loop ") ++ joinWith "," (w.map (fun x => toString x.bar))
   | _, _ => "bad"
 
+/-- `VectorMemoryUnit.executeFlatLoad/Store`: issuing one FLAT access counts exactly one more
+    outstanding vector access and one more outstanding scalar (LGKM) access, unbounded. -/
+def issueFlat (vm lgkm : Nat) : Nat × Nat := (vm + 1, lgkm + 1)
+
 def handle (line : String) : String :=
   match splitTrim line ";" with
   | [] => "bad"
   | first :: ops =>
     let toks := words first
+    if toks.contains "issue" then
+      match kvNat? toks "v", kvNat? toks "s" with
+      | some v, some sc => let r := issueFlat v sc; s!"ok=true v={r.1} s={r.2}"
+      | _, _ => "bad"
+    else
     if toks.contains "emu" then handleEmu toks else
     match parseState toks with
     | none => "bad-cfg"
